@@ -45,6 +45,7 @@ def run(chk):
     r4_constructors(chk, repo)
     r5_running_max(chk, repo)
     r6_split_protocol(chk, repo)
+    r7_presence_tests(chk, repo)
 
 
 def _mentions_len_of_element(f, text):
@@ -386,8 +387,53 @@ def r6_split_protocol(chk, repo):
     names = [norm(stmt_of(c).targets[0]) for c in cons if isinstance(stmt_of(c), ast.Assign)]
     chk.check(len(ret) == 1 and len(names) == 2 and norm(ret[0].value) == f"({names[0]}, {names[1]})", R, f, ret[0] if ret else None, "Chunk.split does not return (left, right)", site_text="Chunk.split: return (left, right)")
 
+# ------------------------------------------------------------------------------------ R7
+def _strip_presence(e):
+    """`len(X)` / `not X` / `X.get(k, ...)` -> the chunk-valued expression whose rows are counted."""
+    while True:
+        if isinstance(e, ast.Call) and call_name(e) in ("len", "bool") and len(e.args) == 1:
+            e = e.args[0]
+        elif isinstance(e, ast.UnaryOp) and isinstance(e.op, ast.Not):
+            e = e.operand
+        elif isinstance(e, ast.Compare) and len(e.ops) == 1 and isinstance(e.comparators[0], ast.Constant) and e.comparators[0].value in (0, 1) and isinstance(e.ops[0], (ast.Gt, ast.GtE, ast.NotEq, ast.Eq, ast.Lt, ast.LtE)):
+            e = e.left
+        else:
+            break
+    if isinstance(e, ast.Call) and isinstance(e.func, ast.Attribute) and e.func.attr == "get" and e.args:
+        return f"{norm(e.func.value)}[{norm(e.args[0])}]"
+    return norm(e)
+
+
+def r7_presence_tests(chk, repo):
+    chk.describe("C07.R7", "whether a cached chunk takes part in a concatenation is decided by its presence (is None / key in cache / number of cache entries), never by its row count or truth value: an empty chunk still carries a time range")
+    n = 0
+    for f in repo.functions:
+        if not (f.path == CHUNK or f.path.startswith("strax/plugins/") or f.path == "strax/storage/common.py"):
+            continue
+        cc = [c for c in calls_in(f.node) if (call_name(c) or "").endswith("Chunk.concatenate") and c.args and isinstance(c.args[0], (ast.List, ast.Tuple))]
+        if not cc:
+            continue
+        cfg = cfg_of(f)
+        for c in cc:
+            n += 1
+            elems = {norm(e) for e in c.args[0].elts}
+            node = cfg.node_of(stmt_of(c))
+            bad = None
+            for e, pol, g in cfg.guard_literals(node):
+                if isinstance(e, ast.Compare) and len(e.ops) == 1 and isinstance(e.ops[0], (ast.Is, ast.IsNot, ast.In, ast.NotIn)):
+                    continue
+                if _strip_presence(e) in elems:
+                    bad = e
+            chk.check(bad is None, "C07.R7", f, stmt_of(c), f"`{norm(bad) if bad is not None else ''}` decides by row count / truth value whether a chunk is concatenated: an empty cached chunk is treated as absent and its time range is lost",
+                      site_text=f"{f.qualname}: concatenation guarded by presence tests only", site={"function": f.qualname, "concatenate": norm(c.args[0])[:80]})
+    chk.floor("C07.R7", "Chunk.concatenate call sites with a literal list", n, 3)
+
 
 WITNESSES = [
+    W("rechunker cache tested by truth value", "C07.R7", CHUNK,
+      "if self.cache is not None:\n            # We have an old chunk", "if self.cache:\n            # We have an old chunk"),
+    W("overlap plugin cache tested by row count", "C07.R7", "strax/plugins/overlap_window_plugin.py",
+      "if len(self.cached_input):\n                kwargs[data_kind]", "if len(self.cached_input.get(data_kind, ())):\n                kwargs[data_kind]"),
     W("split_array forgets long earlier rows", "C07.R5", CHUNK,
       "latest_end_seen = max(latest_end_seen, strax.endtime(d))", "latest_end_seen = strax.endtime(d)"),
     W("run bookkeeping before the split time is final", "C07.R6", CHUNK,
